@@ -181,6 +181,8 @@ class Message:
         Args:
             m: Message structure to copy
         """
+        # from_buffer_copy is a method of the ctypes structure *classes*
         return Message(
-            MessageHeader.from_buffer_copy(m.header), m.data.from_buffer_copy(m.data)
+            type(m.header).from_buffer_copy(m.header),
+            type(m.data).from_buffer_copy(m.data),
         )
